@@ -4,7 +4,8 @@
 (* hand-off chains in all four forms (at most MaxHandoffs hand-offs), broadcast attempts at any time.                   *)
 (* The design statements of the property are the invariants below.                                                      *)
 EXTENDS Cosign, TLC
-CONSTANTS MaxHandoffs, Big        \* Big: all 24 listing orders for n = 4 (thorough), else 5 representatives
+CONSTANTS MaxHandoffs, Big        \* Big = TRUE: all 24 listing orders for n = 4 (1.3 million states, ~6 min; not used by the
+                                  \* registered configurations), FALSE: 5 representative orders
 VARIABLES cfg, rank, order, phase, script, s, hand, pushedSig
 vars == <<cfg, rank, order, phase, script, s, hand, pushedSig>>
 
